@@ -37,9 +37,12 @@ Proof.
   - destruct (cached >? max); [discriminate|]. inversion H; subst. eexists; eexists; split; [reflexivity|exact Hwf].
   - destruct (cached >? max).
     + destruct (extract_payload w sz p max) as [[d k] rm] eqn:E.
-      destruct (extract_payload_perm _ _ _ _ _ _ _ Hwf E) as [_ Hwk].
+      destruct (extract_payload_perm _ _ _ _ _ _ _ _ Hwf E) as [_ Hwk].
       destruct (rm <=? 0).
-      * inversion H; subst. eexists; eexists; split; [reflexivity|exact Hwk].
+      * destruct (first_weight w (items_of k) =? 0).
+        -- inversion H; subst. eexists; eexists; split; [reflexivity|exact Hwk].
+        -- destruct (extract_payload w Items k (first_weight w (items_of k))) as [[d1 k1] rm1] eqn:E1.
+           destruct (extract_payload_perm _ _ _ _ _ _ _ _ Hwk E1) as [_ Hwk1]. eapply IH; eauto.
       * eapply IH; eauto.
     + inversion H; subst. eexists; eexists; split; [reflexivity|exact Hwf].
 Qed.
@@ -91,7 +94,7 @@ Proof.
   assert (Hpart : forall ex, Some (extract_res w sz) = Some ex -> forall c cap0 e0 rest0 er0,
             wf_r w sz c -> ex c cap0 = (e0, rest0, er0) ->
             Permutation (iflat_res e0 ++ iflat_res rest0) (iflat_res c) /\ wf_r w sz rest0 /\ (res_nonempty e0 = false -> iflat_res e0 = [])).
-  { intros ex Hex; inversion Hex; subst. intros c cap0 e0 rest0 er0 Hc Hx. exact (extract_res_ok w sz c cap0 e0 rest0 er0 Hc Hx). }
+  { intros ex Hex; inversion Hex; subst. intros c cap0 e0 rest0 er0 Hc Hx. exact (extract_res_ok w sz sz c cap0 e0 rest0 er0 Hc Hx). }
   destruct (walk_perm sz (res_size w sz) (Some (extract_res w sz)) res_nonempty iflat_res (wf_r w sz) Hpart _ _ _ _ _ _ Hwf E) as [Hp Hk].
   split; [|exact Hk]. rewrite !items_iflat, <- map_app. apply Permutation_map. exact Hp.
 Qed.
@@ -102,8 +105,11 @@ Proof.
   induction fuel as [|f IH]; intros w sz max p cached acc out H; cbn [split_loop] in H.
   - destruct (cached >? max); [discriminate|]. inversion H; eauto.
   - destruct (cached >? max); [|inversion H; eauto].
-    destruct (extract_payload w sz p max) as [[d k] rm]. destruct (rm <=? 0); [inversion H; eauto|].
-    destruct (IH _ _ _ _ _ _ _ H) as [tail ->]. rewrite <- app_assoc. eauto.
+    destruct (extract_payload w sz p max) as [[d k] rm]. destruct (rm <=? 0).
+    + destruct (first_weight w (items_of k) =? 0); [inversion H; eauto|].
+      destruct (extract_payload w Items k (first_weight w (items_of k))) as [[d1 k1] rm1].
+      destruct (IH _ _ _ _ _ _ _ H) as [tail ->]. rewrite <- app_assoc. eauto.
+    + destruct (IH _ _ _ _ _ _ _ H) as [tail ->]. rewrite <- app_assoc. eauto.
 Qed.
 
 Lemma res_prefix_ok w sz pa : wf_p w sz pa ->
@@ -113,29 +119,53 @@ Proof.
   split; [lia|]. intros Hz. unfold N_r in *. destruct (items_of_res c); [reflexivity|cbn [length] in *; lia].
 Qed.
 
+(* every item present weighs at least 1 in the count ItemsCount() (log records, spans; profiles that have samples) *)
+Definition pos_items (w : item -> Z) (p : payload) : Prop := forall i, In i (items_of p) -> 1 <= w i.
+
+Lemma pos_sum_zero (w : item -> Z) l : (forall i, In i l -> 1 <= w i) -> sumZf w l = 0 -> l = [].
+Proof.
+  intros H S. destruct l as [|x l]; [reflexivity|exfalso]. cbn [sumZf] in S.
+  assert (0 <= sumZf w l) by (apply sumZf_nonneg_l; intros y Hy; specialize (H y (or_intror Hy)); lia).
+  specialize (H x (or_introl eq_refl)). lia.
+Qed.
+
 (* MergeSplit of a parked request a (it fits into max_size) with a new request b: the FIRST result holds items of a
-   and b only, every OTHER result holds items of b only *)
+   and b only — and of a only when its ItemsCount() equals a's —, every OTHER result holds items of b only *)
 Lemma merge_split_owners : forall w sz max a b out,
-  wf_p w sz (rp a) -> wf_p w sz (rp b) -> (max = 0 \/ psum w sz (rp a) <= max) -> 0 <= max ->
+  wf_p w sz (rp a) -> wf_p w sz (rp b) -> pos_items w (rp b) -> (max = 0 \/ psum w sz (rp a) <= max) -> 0 <= max ->
   merge_split w sz max a (Some b) = Some out ->
   exists r0 rest, out = r0 :: rest /\
     (forall x, In x (ritems r0) -> In x (ritems a) \/ In x (ritems b)) /\
-    (forall q x, In q rest -> In x (ritems q) -> In x (ritems b)).
+    (sumZf w (ritems r0) = sumZf w (ritems a) -> forall x, In x (ritems r0) -> In x (ritems a)) /\
+    (forall q x, In q rest -> In x (ritems q) -> In x (ritems b)) /\
+    (sumZf w (ritems r0) <> sumZf w (ritems a) -> exists x, In x (ritems r0) /\ In x (ritems b)) /\
+    (forall x, In x (ritems a) -> In x (ritems r0)).
 Proof.
-  intros w sz max a b out Ha Hb Hfit Hmax H. unfold merge_split in H. cbn [merged rp] in H.
+  intros w sz max a b out Ha Hb Hpos Hfit Hmax H. unfold merge_split in H. cbn [merged rp] in H.
+  assert (Hina : forall x, In x (ritems a) -> In x (items_of (rp a ++ rp b))).
+  { intros x Hx. rewrite items_of_app. apply in_or_app. now left. }
+  assert (Hne : forall l, sumZf w l <> 0 -> exists x : item, In x l).
+  { intros [|x l] Hl; [cbn in Hl; congruence|exists x; now left]. }
   set (cached := req_size w sz {| rp := rp a ++ rp b; rcached := req_size w sz a + req_size w sz b |}) in *.
+  assert (Hall : forall x, In x (items_of (rp a ++ rp b)) -> In x (ritems a) \/ In x (ritems b)).
+  { intros x Hx. rewrite items_of_app in Hx. apply in_app_or in Hx. exact Hx. }
+  assert (Hsame : sumZf w (items_of (rp a ++ rp b)) = sumZf w (ritems a) -> forall x, In x (items_of (rp a ++ rp b)) -> In x (ritems a)).
+  { intros Hs x Hx. rewrite items_of_app in Hs, Hx. rewrite sumZf_app in Hs. unfold ritems in Hs.
+    assert (Hb0 : items_of (rp b) = []) by (apply (pos_sum_zero w); [exact Hpos|lia]).
+    rewrite Hb0, app_nil_r in Hx. exact Hx. }
+  assert (Hdiff : sumZf w (items_of (rp a ++ rp b)) <> sumZf w (ritems a) -> exists x, In x (items_of (rp a ++ rp b)) /\ In x (ritems b)).
+  { intros Hs. rewrite items_of_app, sumZf_app in Hs. unfold ritems in Hs.
+    destruct (Hne (items_of (rp b))) as [x Hx]; [lia|]. exists x. split; [rewrite items_of_app; apply in_or_app; now right|exact Hx]. }
   destruct (max =? 0) eqn:E0.
-  - inversion H; subst. exists {| rp := rp a ++ rp b; rcached := req_size w sz a + req_size w sz b |}, [].
-    split; [reflexivity|]. split; [|intros q x []].
-    intros x Hx. unfold ritems in *. cbn [rp] in Hx. rewrite items_of_app in Hx. apply in_app_or in Hx. exact Hx.
+  - inversion H; subst. eexists; exists []. split; [reflexivity|]. split; [exact Hall|]. split; [exact Hsame|]. split; [intros q x []|]. split; [exact Hdiff|exact Hina].
   - apply Z.eqb_neq in E0. destruct Hfit as [Hfit|Hfit]; [lia|].
     unfold fuel_of in H. cbn [split_loop] in H.
     assert (Hwab : wf_p w sz (rp a ++ rp b)) by (apply Forall_app; split; assumption).
     destruct (cached >? max).
-    2:{ inversion H; subst. eexists; exists []. split; [reflexivity|]. split; [|intros q x []].
-        intros x Hx. unfold ritems in *. cbn [rp app] in Hx. rewrite items_of_app in Hx. apply in_app_or in Hx. exact Hx. }
+    2:{ inversion H; subst. eexists; exists []. split; [reflexivity|]. split; [exact Hall|]. split; [exact Hsame|]. split; [intros q x []|]. split; [exact Hdiff|exact Hina]. }
     destruct (extract_payload w sz (rp a ++ rp b) max) as [[d k] rm] eqn:E.
-    destruct (extract_payload_perm _ _ _ _ _ _ _ Hwab E) as [_ Hwk].
+    destruct (extract_payload_perm _ _ _ _ _ _ _ _ Hwab E) as [_ Hwk].
+    pose proof (extract_payload_removed _ _ _ _ _ _ _ Hwab E) as Hrm.
     unfold extract_payload in E. rewrite payload_size_nil, Z.sub_0_r in E.
     destruct (walk_prefix sz (res_size w sz) (Some (extract_res w sz)) res_nonempty items_of_res
                 (rp a) (rp b) max 0 d k rm (res_prefix_ok w sz (rp a) Ha) Hfit E) as [d2 [k2 [cap2 [rm2 [W [Hd Hk]]]]]].
@@ -143,19 +173,59 @@ Proof.
     fold (items_of d) in Hd. fold (items_of (rp a)) in Hd. fold (items_of d2) in Hd. fold (items_of k) in Hk. fold (items_of k2) in Hk.
     assert (Hk2b : forall x, In x (items_of k) -> In x (items_of (rp b))).
     { intros x Hx. rewrite Hk in Hx. eapply Permutation_in; [exact Hp2|]. apply in_or_app; now right. }
+    assert (Hd2b : forall x, In x (items_of d2) -> In x (items_of (rp b))).
+    { intros x Hx. eapply Permutation_in; [exact Hp2|]. apply in_or_app; now left. }
     assert (Hdab : forall x, In x (items_of d) -> In x (items_of (rp a)) \/ In x (items_of (rp b))).
-    { intros x Hx. rewrite Hd in Hx. apply in_app_or in Hx. destruct Hx as [Hx|Hx]; [now left|right].
-      eapply Permutation_in; [exact Hp2|]. apply in_or_app; now left. }
-    destruct (rm <=? 0).
-    + inversion H; subst. eexists; exists []. split; [reflexivity|]. split; [|intros q x []].
-      intros x Hx. unfold ritems in Hx. cbn [rp app] in Hx. right. apply Hk2b. exact Hx.
-    + destruct (split_loop_acc _ _ _ _ _ _ _ _ H) as [tail Ht]. subst out.
-      pose proof (split_loop_items _ _ _ _ _ _ _ _ Hwk H) as Hp.
-      rewrite items_reqs_app in Hp. apply Permutation_app_inv_l in Hp.
-      cbn [app]. eexists; exists tail. split; [reflexivity|]. split.
-      * intros x Hx. unfold ritems in Hx. cbn [rp] in Hx. apply Hdab. exact Hx.
-      * intros q x Hq Hx. apply Hk2b. eapply Permutation_in; [exact Hp|].
-        unfold items_reqs. apply in_concat. exists (ritems q). split; [apply in_map; exact Hq|exact Hx].
+    { intros x Hx. rewrite Hd in Hx. apply in_app_or in Hx. destruct Hx as [Hx|Hx]; [now left|right; now apply Hd2b]. }
+    assert (Hdsame : sumZf w (items_of d) = sumZf w (items_of (rp a)) -> forall x, In x (items_of d) -> In x (items_of (rp a))).
+    { intros Hs x Hx. rewrite Hd, sumZf_app in Hs. rewrite Hd in Hx.
+      assert (Hd20 : items_of d2 = []) by (apply (pos_sum_zero w); [intros i Hi; apply Hpos, Hd2b, Hi|lia]).
+      rewrite Hd20, app_nil_r in Hx. exact Hx. }
+    (* whatever comes out of a loop started on a sub-payload of k holds items of b only *)
+    assert (Hkb_all : forall f c p0 acc0 o, wf_p w sz p0 -> (forall x, In x (items_of p0) -> In x (items_of (rp b))) ->
+              split_loop f w sz max p0 c acc0 = Some o -> forall tail, o = acc0 ++ tail ->
+              forall q x, In q tail -> In x (ritems q) -> In x (ritems b)).
+    { intros f0 c0 p0 acc0 o Hw0 Hsub Ho tail Ht q x Hq Hx. pose proof (split_loop_items _ _ _ _ _ _ _ _ Hw0 Ho) as Hp.
+      subst o. rewrite items_reqs_app in Hp. apply Permutation_app_inv_l in Hp. apply Hsub. eapply Permutation_in; [exact Hp|].
+      unfold items_reqs. apply in_concat. exists (ritems q). split; [apply in_map; exact Hq|exact Hx]. }
+    destruct (rm <=? 0) eqn:Eb.
+    + (* nothing was removed: a holds no item *)
+      apply Z.leb_le in Eb.
+      assert (Hd0 : items_of d = []) by (destruct (items_of d); [reflexivity|cbn [length] in Hrm; lia]).
+      assert (Ha0 : items_of (rp a) = []) by (rewrite Hd in Hd0; apply app_eq_nil in Hd0; tauto).
+      destruct (first_weight w (items_of k) =? 0).
+      * inversion H; subst. eexists; exists []. split; [reflexivity|].
+        assert (Hr0 : forall x, In x (ritems {| rp := k; rcached := cached - rm |}) -> In x (ritems b)) by (intros x Hx; apply Hk2b; exact Hx).
+        split; [intros x Hx; right; now apply Hr0|]. split; [|split; [intros q x []|]].
+        -- intros Hs x Hx. exfalso. unfold ritems in Hs. cbn [rp] in Hs. rewrite Ha0 in Hs. cbn in Hs.
+           assert (Hk0 : items_of k = []) by (apply (pos_sum_zero w); [intros i Hi; apply Hpos, Hk2b, Hi|exact Hs]).
+           unfold ritems in Hx. cbn [rp] in Hx. rewrite Hk0 in Hx. destruct Hx.
+        -- split; [|intros x Hx; unfold ritems in Hx; rewrite Ha0 in Hx; destruct Hx].
+           intros Hs. unfold ritems in Hs. cbn [rp] in Hs. rewrite Ha0 in Hs. cbn [sumZf] in Hs.
+           destruct (Hne _ Hs) as [x Hx]. exists x. split; [exact Hx|apply Hk2b; exact Hx].
+      * destruct (extract_payload w Items k (first_weight w (items_of k))) as [[d1 k1] rm1] eqn:E1.
+        destruct (extract_payload_perm _ _ _ _ _ _ _ _ Hwk E1) as [Hp1 Hwk1].
+        assert (Hp1i : Permutation (items_of d1 ++ items_of k1) (items_of k)).
+        { rewrite !items_iflat, <- map_app. apply Permutation_map. exact Hp1. }
+        assert (Hd1b : forall x, In x (items_of d1) -> In x (items_of (rp b))).
+        { intros x Hx. apply Hk2b. eapply Permutation_in; [exact Hp1i|]. apply in_or_app; now left. }
+        assert (Hk1b : forall x, In x (items_of k1) -> In x (items_of (rp b))).
+        { intros x Hx. apply Hk2b. eapply Permutation_in; [exact Hp1i|]. apply in_or_app; now right. }
+        destruct (split_loop_acc _ _ _ _ _ _ _ _ H) as [tail Ht]. cbn [app] in Ht.
+        eexists; exists tail. split; [exact Ht|]. split; [intros x Hx; right; now apply Hd1b|]. split.
+        -- intros Hs x Hx. exfalso. unfold ritems in Hs. cbn [rp] in Hs. rewrite Ha0 in Hs. cbn in Hs.
+           assert (H10 : items_of d1 = []) by (apply (pos_sum_zero w); [intros i Hi; apply Hpos, Hd1b, Hi|exact Hs]).
+           unfold ritems in Hx. cbn [rp] in Hx. rewrite H10 in Hx. destruct Hx.
+        -- split; [exact (Hkb_all _ _ _ _ _ Hwk1 Hk1b H tail Ht)|].
+           split; [|intros x Hx; unfold ritems in Hx; rewrite Ha0 in Hx; destruct Hx].
+           intros Hs. unfold ritems in Hs. cbn [rp] in Hs. rewrite Ha0 in Hs. cbn [sumZf] in Hs.
+           destruct (Hne _ Hs) as [x Hx]. exists x. split; [exact Hx|apply Hd1b; exact Hx].
+    + destruct (split_loop_acc _ _ _ _ _ _ _ _ H) as [tail Ht]. cbn [app] in Ht.
+      eexists; exists tail. split; [exact Ht|]. split; [intros x Hx; apply Hdab; exact Hx|]. split; [exact Hdsame|].
+      split; [exact (Hkb_all _ _ _ _ _ Hwk Hk2b H tail Ht)|].
+      split; [|intros x Hx; unfold ritems; cbn [rp]; rewrite Hd; apply in_or_app; now left].
+      intros Hs. unfold ritems in Hs. cbn [rp] in Hs. rewrite Hd, sumZf_app in Hs.
+      destruct (Hne (items_of d2)) as [x Hx]; [lia|]. exists x. split; [unfold ritems; cbn [rp]; rewrite Hd; apply in_or_app; now right|apply Hd2b; exact Hx].
 Qed.
 
 (* MergeSplit of a new request alone: every result holds items of that request only; the last one is well-formed *)
@@ -236,6 +306,7 @@ Section PayloadBatcher.
 
   Definition msplitC (a : req) (b : option req) : option (list req) := merge_split w sz max a b.
   Definition sizeofC (r : req) : Z := payload_size w sz (rp r).     (* the queue's sizer: the TRUE size *)
+  Definition icountC (r : req) : Z := sumZf w (ritems r).            (* ItemsCount(): records / spans / samples *)
   Notation bst := (@bstate req).
 
   (* request i (the i-th consumed) owns item x *)
@@ -309,10 +380,10 @@ Section PayloadBatcher.
   Lemma last_eq {A} (f1 f2 : list A) a b : f1 ++ [a] = f2 ++ [b] -> a = b.
   Proof. intros H. apply app_inj_tail in H. tauto. Qed.
 
-  Lemma K_consume rs n (st : bst) r : wf_p w sz (rp r) -> K rs n st ->
-    K (rs ++ [r]) (S n) (consume msplitC sizeofC min st n r).
+  Lemma K_consume rs n (st : bst) r : wf_p w sz (rp r) -> pos_items w (rp r) -> K rs n st ->
+    K (rs ++ [r]) (S n) (consume msplitC sizeofC icountC min st n r).
   Proof.
-    intros Hr [Hn [Kc Kf]]. subst n.
+    intros Hr Hpos [Hn [Kc Kf]]. subst n.
     assert (Hlen : S (length rs) = length (rs ++ [r])) by (rewrite app_length; cbn; lia).
     unfold consume. destruct (b_cur st) as [[c cds]|] eqn:Ecur.
     - destruct Kc as [Hwc [Hfit Hcov]].
@@ -321,21 +392,29 @@ Section PayloadBatcher.
           - split; [exact Hwc|]. split; [exact Hfit|]. rewrite <- (app_nil_r (b_refs st)). apply covered_mono. exact Hcov.
           - eapply Forall_impl; [|exact Kf]. intros f Hf. rewrite <- (app_nil_r (b_refs st)). apply covered_mono. exact Hf. }
       unfold msplitC in Em.
-      destruct (merge_split_owners _ _ _ _ _ _ Hwc Hr Hfit max_nonneg Em) as [r0 [rest [-> [Hr0 Hrest]]]].
+      destruct (merge_split_owners _ _ _ _ _ _ Hwc Hr Hpos Hfit max_nonneg Em) as [r0 [rest [-> [Hr0 [Hsame [Hrest _]]]]]].
       destruct (merge_split_last_wf _ _ _ _ _ _ Hwc Hr Em) as [front [last [Hfl Hlw]]].
-      destruct (wrap_done st (length rs) (S (length rest))) as [st1 d] eqn:Ew.
+      set (fhn := (Nat.eqb (length rest) 0 || negb (icountC r0 =? icountC c))%bool).
+      destruct (wrap_done st (length rs) (if fhn then S (length rest) else length rest)) as [st1 d] eqn:Ew.
       destruct (wrap_done_attached _ _ _ _ _ Ew) as [[l Hrefs] [Hatt [Hc1 Hfy1]]].
+      set (cds' := if fhn then cds ++ [d] else cds).
       set (ff := ((0 <? length rest)%nat || negb (sizeofC r0 <? min))%bool).
-      set (st2 := with_cur st1 (if ff then None else Some (r0, cds ++ [d]))).
+      set (st2 := with_cur st1 (if ff then None else Some (r0, cds'))).
       destruct (park_last sizeofC min st2 rest d) as [rest' st3] eqn:Ep.
-      set (st4 := if ff then start_flush st3 r0 (cds ++ [d]) else st3).
+      set (st4 := if ff then start_flush st3 r0 cds' else st3).
       destruct (start_flushes_spec rest' st4 [d]) as [Hr5 [_ [Hc5 _]]].
       (* coverage of the results *)
-      assert (Cov0 : covered (rs ++ [r]) (b_refs st1) (cds ++ [d]) r0).
-      { intros x Hx. destruct (Hr0 x Hx) as [Hx1|Hx1].
-        - destruct (Hcov x Hx1) as [i [Ho Ha]]. exists i. split; [apply owner_app; exact Ho|].
-          rewrite attached_app_ds, Hrefs, (attached_app_refs _ l _ _ Ha). reflexivity.
-        - exists (length rs). split; [apply owner_new; exact Hx1|]. rewrite attached_app_ds, Hatt. apply orb_true_r. }
+      assert (Cov0 : covered (rs ++ [r]) (b_refs st1) cds' r0).
+      { unfold cds'. destruct fhn eqn:Efhn.
+        - intros x Hx. destruct (Hr0 x Hx) as [Hx1|Hx1].
+          + destruct (Hcov x Hx1) as [i [Ho Ha]]. exists i. split; [apply owner_app; exact Ho|].
+            rewrite attached_app_ds, Hrefs, (attached_app_refs _ l _ _ Ha). reflexivity.
+          + exists (length rs). split; [apply owner_new; exact Hx1|]. rewrite attached_app_ds, Hatt. apply orb_true_r.
+        - (* same ItemsCount as the parked batch: the first result holds items of the parked batch only *)
+          unfold fhn in Efhn. apply orb_false_iff in Efhn. destruct Efhn as [_ Ec]. apply negb_false_iff in Ec. apply Z.eqb_eq in Ec.
+          intros x Hx. pose proof (Hsame Ec x Hx) as Hx1.
+          destruct (Hcov x Hx1) as [i [Ho Ha]]. exists i. split; [apply owner_app; exact Ho|].
+          rewrite Hrefs. apply attached_app_refs. exact Ha. }
       assert (CovR : forall q, In q rest -> covered (rs ++ [r]) (b_refs st1) [d] q).
       { intros q Hq x Hx. exists (length rs). split; [apply owner_new; eapply Hrest; eauto|exact Hatt]. }
       assert (CovOld : Forall (fun f => covered (rs ++ [r]) (b_refs st1) (snd f) (snd (fst f))) (b_flying st)).
@@ -409,6 +488,7 @@ Section PayloadRun.
   Notation bst := (@bstate req).
   Notation MS := (msplitC w sz max).
   Notation SO := (sizeofC w sz).
+  Notation IC := (icountC w).
   Notation KK := (K w sz max).
 
   Lemma K_flush_current rs n (st : bst) : KK rs n st -> KK rs n (flush_current st).
@@ -442,27 +522,28 @@ Section PayloadRun.
   (* the run with the list of consumed requests as ghost *)
   Definition kstep (x : bst * nat * list req) (e : @bevent req) : bst * nat * list req :=
     let '(st, n, rs) := x in
-    (bstep MS SO min (st, n) e, match e with EConsume r => rs ++ [r] | _ => rs end).
+    (bstep MS SO IC min (st, n) e, match e with EConsume r => rs ++ [r] | _ => rs end).
   Definition krun (es : list (@bevent req)) : bst * nat * list req := fold_left kstep es (b_init, O, []).
 
-  Lemma krun_fst es : fst (krun es) = brun MS SO min es.
+  Lemma krun_fst es : fst (krun es) = brun MS SO IC min es.
   Proof.
     unfold krun, brun. generalize (@b_init req, O) as sn. generalize (@nil req) as rs.
     induction es as [|e es IH]; intros rs sn; [reflexivity|]. cbn [fold_left]. destruct sn as [st n]. cbn [kstep]. apply IH.
   Qed.
 
-  Definition wf_events (es : list (@bevent req)) : Prop := forall r, In (EConsume r) es -> wf_p w sz (rp r).
+  Definition wf_events (es : list (@bevent req)) : Prop :=
+    forall r, In (EConsume r) es -> wf_p w sz (rp r) /\ pos_items w (rp r).
 
   Lemma K_run es : wf_events es -> let '(st, n, rs) := krun es in KK rs n st.
   Proof.
     intros Hwf. unfold krun. rewrite <- fold_left_rev_right.
-    assert (Hwf' : forall r, In (EConsume r) (rev es) -> wf_p w sz (rp r)) by (intros r Hr; apply Hwf; now apply in_rev).
+    assert (Hwf' : forall r, In (EConsume r) (rev es) -> wf_p w sz (rp r) /\ pos_items w (rp r)) by (intros r Hr; apply Hwf; now apply in_rev).
     clear Hwf. induction (rev es) as [|e l IH]; cbn [fold_right].
     - split; [reflexivity|]. split; [exact I|constructor].
-    - assert (Hl : forall r, In (EConsume r) l -> wf_p w sz (rp r)) by (intros r Hr; apply Hwf'; now right).
+    - assert (Hl : forall r, In (EConsume r) l -> wf_p w sz (rp r) /\ pos_items w (rp r)) by (intros r Hr; apply Hwf'; now right).
       specialize (IH Hl). destruct (fold_right (fun y x => kstep x y) (b_init, O, []) l) as [[st n] rs].
       destruct e; cbn [kstep bstep].
-      + apply K_consume; auto. apply Hwf'. now left.
+      + destruct (Hwf' r (or_introl eq_refl)) as [W1 W2]. apply K_consume; auto.
       + apply K_flush_current; exact IH.
       + apply K_flush_result; exact IH.
       + apply K_flush_current; exact IH.
@@ -497,17 +578,17 @@ Section PayloadRun.
   Qed.
 
   (* the error verdict only grows *)
-  Lemma estep_mono x e i : snd x i = true -> snd (estep MS SO min x e) i = true.
+  Lemma estep_mono x e i : snd x i = true -> snd (estep MS SO IC min x e) i = true.
   Proof.
     destruct x as [[st n] E]. cbn [snd estep]. intros H. destruct e; cbn [snd]; try exact H.
     - now rewrite H.
     - destruct (take_flying b (b_flying st)) as [[ds fl]|]; [now rewrite H|exact H].
   Qed.
 
-  Lemma erun_from_mono es : forall x i, snd x i = true -> snd (fold_left (estep MS SO min) es x) i = true.
+  Lemma erun_from_mono es : forall x i, snd x i = true -> snd (fold_left (estep MS SO IC min) es x) i = true.
   Proof. induction es as [|e es IH]; intros x i H; [exact H|]. cbn [fold_left]. apply IH. apply estep_mono. exact H. Qed.
 
-  Lemma erun_krun_state es : fst (erun MS SO min es) = fst (krun es).
+  Lemma erun_krun_state es : fst (erun MS SO IC min es) = fst (krun es).
   Proof. rewrite erun_fst, krun_fst. reflexivity. Qed.
 
   (* the 'if' half in the property's wording: when the export of a batch HOLDING an item of request i fails, the
@@ -517,13 +598,13 @@ Section PayloadRun.
     let '(st, n, rs) := krun es1 in
     forall r ds x i, fly_req b (b_flying st) = Some (r, ds) -> In x (ritems r) ->
       owner rs i x -> (forall j, owner rs j x -> j = i) ->
-      snd (erun MS SO min (es1 ++ EResult b err :: es2)) i = true.
+      snd (erun MS SO IC min (es1 ++ EResult b err :: es2)) i = true.
   Proof.
     intros Hwf ->. pose proof (holds_attached_l es1 Hwf) as HA. pose proof (erun_krun_state es1) as Hs.
     destruct (krun es1) as [[st n] rs]. intros r ds x i Hfly Hx Ho Hu.
     destruct (fly_req_take _ _ _ _ Hfly) as [Hin [fl Ht]].
     unfold erun. rewrite fold_left_app. cbn [fold_left]. apply erun_from_mono.
-    fold (erun MS SO min es1). destruct (erun MS SO min es1) as [[st' n'] E]. cbn [fst] in Hs. inversion Hs; subst st' n'.
+    fold (erun MS SO IC min es1). destruct (erun MS SO IC min es1) as [[st' n'] E]. cbn [fst] in Hs. inversion Hs; subst st' n'.
     cbn [estep snd]. rewrite Ht. rewrite (HA b r ds x i Hin Hx Ho Hu). cbn. apply orb_true_r.
   Qed.
 End PayloadRun.
@@ -534,17 +615,17 @@ Lemma done_error_if_items_l w sz max min (Hmax : 0 <= max) (Hmm : max = 0 \/ min
   let '(st, n, rs) := krun w sz max min es1 in
   forall r ds x i e, fly_req b (b_flying st) = Some (r, ds) -> In x (ritems r) ->
     owner rs i x -> (forall j, owner rs j x -> j = i) ->
-    In (i, e) (b_fired (fst (brun (msplitC w sz max) (sizeofC w sz) min (es1 ++ EResult b true :: es2)))) -> e = true.
+    In (i, e) (b_fired (fst (brun (msplitC w sz max) (sizeofC w sz) (icountC w) min (es1 ++ EResult b true :: es2)))) -> e = true.
 Proof.
   intros Hwf. pose proof (error_if_items_l w sz max min Hmax Hmm es1 es2 b true Hwf eq_refl) as H.
   destruct (krun w sz max min es1) as [[st n] rs]. intros r ds x i e Hf Hx Ho Hu Hin.
-  rewrite (done_error_iff_l _ _ _ _ _ _ Hin). eapply H; eauto.
+  rewrite (done_error_iff_l _ _ _ _ _ _ _ Hin). eapply H; eauto.
 Qed.
 
-(* C04-DONE-FOREIGN-ERROR on payload requests (bytes sizer, min_size = max_size = 120): request 0 = one 60-byte
+(* regression of the former C04-DONE-FOREIGN-ERROR witness on payload requests (bytes sizer, min_size = max_size = 120): request 0 = one 60-byte
    record (parked), request 1 = three 50-byte records.  MergeSplit leaves the parked record alone in the first result
    (none of the new records fits beside it); that batch carries the dones of BOTH requests; it fails; the three
-   batches holding the records of request 1 succeed; request 1 reports an error. *)
+   batches holding the records of request 1 succeed; since 6f74b829b request 1 reports success. *)
 Definition fe_a : req := {| rcached := -1; rp := [ {| rctx := 1; rhdr := 10; rscopes := [ {| sctx := 1; shdr := 10; sitems := [ {| iid := 1; iraw := 60; icnt := 1 |} ] |} ] |} ] |}.
 Definition fe_b : req := {| rcached := -1; rp := [ {| rctx := 2; rhdr := 10; rscopes := [ {| sctx := 1; shdr := 10;
   sitems := [ {| iid := 2; iraw := 50; icnt := 1 |}; {| iid := 3; iraw := 50; icnt := 1 |}; {| iid := 4; iraw := 50; icnt := 1 |} ] |} ] |} ] |}.
@@ -552,10 +633,10 @@ Definition fe_hist : list (@bevent req) :=
   [EConsume fe_a; EConsume fe_b; EShutdown; EResult 0 true; EResult 1 false; EResult 2 false; EResult 3 false].
 
 Lemma foreign_error_payload_witness :
-  let run es := fst (brun (msplitC w_unit Bytes 120) (sizeofC w_unit Bytes) 120 es) in
+  let run es := fst (brun (msplitC w_unit Bytes 120) (sizeofC w_unit Bytes) (icountC w_unit) 120 es) in
   map (fun f => (fst (fst f), map iid (ritems (snd (fst f))))) (b_flying (run (firstn 3 fe_hist)))
     = [(0%nat, [1]); (1%nat, [2]); (2%nat, [3]); (3%nat, [4])] /\
-  b_fired (run fe_hist) = [(0%nat, true); (1%nat, true)].
+  b_fired (run fe_hist) = [(0%nat, true); (1%nat, false)].
 Proof. vm_compute. split; reflexivity. Qed.
 
 (* ---- "only after every batch containing part of it has finished", in items -------------------------------- *)
@@ -596,8 +677,8 @@ Lemma done_only_after_items_l w sz max min (Hmax : 0 <= max) (Hmm : max = 0 \/ m
 Proof.
   intros Hwf. pose proof (holds_attached_l w sz max min Hmax Hmm es Hwf) as HA.
   pose proof (krun_fst w sz max min es) as Hs.
-  pose proof (inv_run (msplitC w sz max) (sizeofC w sz) min es) as HI.
-  pose proof (done_only_after_batches_l (msplitC w sz max) (sizeofC w sz) min es) as HD.
+  pose proof (inv_run (msplitC w sz max) (sizeofC w sz) (icountC w) min es) as HI.
+  pose proof (done_only_after_batches_l (msplitC w sz max) (sizeofC w sz) (icountC w) min es) as HD.
   rewrite <- Hs in HI, HD. destruct (krun w sz max min es) as [[st n] rs]. cbn [fst snd] in *.
   intros i Hf b r ds x Hin Hx Ho Hu. apply (HD i Hf). eapply attached_refers; eauto.
 Qed.
@@ -671,41 +752,47 @@ Section PayloadConservation.
   Notation bst := (@bstate req).
   Notation MS := (msplitC w sz max).
   Notation SO := (sizeofC w sz).
+  Notation IC := (icountC w).
 
-  (* the run with two ghosts: the consumed requests and the items of the batches whose export has returned *)
-  Definition cstep (x : bst * nat * list req * list item) (e : @bevent req) : bst * nat * list req * list item :=
-    let '(st, n, rs, F) := x in
-    (bstep MS SO min (st, n) e,
+  (* the run with three ghosts: the consumed requests, the items of the requests whose MergeSplit did not fail, and
+     the items of the batches whose export has returned *)
+  Definition cstep (x : bst * nat * list req * list item * list item) (e : @bevent req) : bst * nat * list req * list item * list item :=
+    let '(st, n, rs, ok, F) := x in
+    (bstep MS SO IC min (st, n) e,
      match e with EConsume r => rs ++ [r] | _ => rs end,
+     match e with EConsume r => if ms_failed MS st r then ok else ok ++ ritems r | _ => ok end,
      match e with
      | EResult b _ => match fly_req b (b_flying st) with Some (r, _) => F ++ ritems r | None => F end
      | _ => F
      end).
-  Definition crun (es : list (@bevent req)) := fold_left cstep es (b_init, O, [], []).
+  Definition crun (es : list (@bevent req)) := fold_left cstep es (b_init, O, [], [], []).
 
-  Definition Cons (st : bst) (rs : list req) (F : list item) : Prop :=
-    Permutation (cur_items st ++ fly_items st ++ F) (items_reqs rs).
+  Definition Cons (st : bst) (ok : list item) (F : list item) : Prop :=
+    Permutation (cur_items st ++ fly_items st ++ F) ok.
 
-  Lemma Cons_consume rs n (st : bst) r F : wf_p w sz (rp r) -> K w sz max rs n st -> Cons st rs F ->
-    Cons (consume MS SO min st n r) (rs ++ [r]) F.
+  Lemma Cons_consume rs n (st : bst) r ok F : wf_p w sz (rp r) -> K w sz max rs n st -> Cons st ok F ->
+    Cons (consume MS SO IC min st n r) (if ms_failed MS st r then ok else ok ++ ritems r) F.
   Proof.
     intros Hr [_ [Kc _]] HC. unfold Cons in *. apply (Permutation_count_occ item_dec). intros x.
     pose proof (proj1 (Permutation_count_occ item_dec _ _) HC x) as HCx. clear HC.
-    rewrite items_reqs_snoc. rewrite !count_occ_app in *.
+    unfold ms_failed.
     unfold consume. destruct (b_cur st) as [[c cds]|] eqn:Ecur.
     - destruct Kc as [Hwc _]. unfold msplitC.
-      destruct (merge_split_total w sz max c (Some r)) as [out Em]. rewrite Em.
+      destruct (merge_split w sz max c (Some r)) as [out|] eqn:Em.
+      2:{ unfold fire, cur_items, fly_items in *; cbn [on_done_all on_done b_cur b_flying] in *. rewrite Ecur in *. exact HCx. }
       pose proof (proj1 (Permutation_count_occ item_dec _ _) (merge_split_items_perm w sz max c (Some r) out Hwc Hr Em) x) as Hp.
-      rewrite count_occ_app in Hp. unfold cur_items in HCx. rewrite Ecur in HCx.
+      rewrite !count_occ_app in *. unfold cur_items in HCx. rewrite Ecur in HCx.
       destruct out as [|r0 rest].
       { unfold fire, cur_items, fly_items in *; cbn [on_done_all on_done b_cur b_flying] in *. rewrite Ecur.
         rewrite items_reqs_nil in Hp. cbn [count_occ] in Hp. lia. }
-      destruct (wrap_done st n (S (length rest))) as [st1 d] eqn:Ew.
+      set (fhn := (Nat.eqb (length rest) 0 || negb (IC r0 =? IC c))%bool).
+      destruct (wrap_done st n (if fhn then S (length rest) else length rest)) as [st1 d] eqn:Ew.
       destruct (wrap_done_attached _ _ _ _ _ Ew) as [_ [_ [Hc1 Hfy1]]].
+      set (cds' := if fhn then cds ++ [d] else cds).
       set (ff := ((0 <? length rest)%nat || negb (SO r0 <? min))%bool).
-      set (st2 := with_cur st1 (if ff then None else Some (r0, cds ++ [d]))).
+      set (st2 := with_cur st1 (if ff then None else Some (r0, cds'))).
       destruct (park_last SO min st2 rest d) as [rest' st3] eqn:Ep.
-      set (st4 := if ff then start_flush st3 r0 (cds ++ [d]) else st3).
+      set (st4 := if ff then start_flush st3 r0 cds' else st3).
       destruct (fly_items_start_flushes rest' st4 [d]) as [Hf5 Hc5].
       unfold cur_items at 1. rewrite Hc5, Hf5, count_occ_app.
       rewrite items_reqs_cons, count_occ_app in Hp.
@@ -722,9 +809,10 @@ Section PayloadConservation.
         * cbn [start_flush b_cur with_cur]. rewrite fly_items_start_flush, Hfy3, count_occ_app. lia.
         * unfold ff in Eff. apply orb_false_iff in Eff. destruct Eff as [El _]. apply Nat.ltb_ge in El.
           rewrite Hla, app_length in El. cbn in El. lia.
-    - unfold msplitC. destruct (merge_split_total w sz max r None) as [out Em]. rewrite Em.
+    - unfold msplitC. destruct (merge_split w sz max r None) as [out|] eqn:Em.
+      2:{ unfold fire, cur_items, fly_items in *; cbn [on_done_all on_done b_cur b_flying] in *. rewrite Ecur in *. exact HCx. }
       pose proof (proj1 (Permutation_count_occ item_dec _ _) (merge_split_items_perm w sz max r None out Hr I Em) x) as Hp.
-      rewrite app_nil_r in Hp. unfold cur_items in HCx. rewrite Ecur in HCx. cbn [count_occ] in HCx.
+      rewrite app_nil_r in Hp. rewrite !count_occ_app in *. unfold cur_items in HCx. rewrite Ecur in HCx. cbn [count_occ] in HCx.
       destruct out as [|r0 rest].
       { unfold fire, cur_items, fly_items in *; cbn [on_done_all on_done b_cur b_flying] in *. rewrite Ecur.
         rewrite items_reqs_nil in Hp. cbn [count_occ] in *. lia. }
@@ -762,25 +850,49 @@ Section PayloadConservation.
     - rewrite (fly_req_none_take _ _ Ef). exact H.
   Qed.
 
-  Lemma Cons_run es : wf_events w sz es -> let '(st, n, rs, F) := crun es in K w sz max rs n st /\ Cons st rs F.
+  Lemma Cons_run es : wf_events w sz es -> let '(st, n, rs, ok, F) := crun es in K w sz max rs n st /\ Cons st ok F.
   Proof.
     intros Hwf. unfold crun. rewrite <- fold_left_rev_right.
-    assert (Hwf' : forall r, In (EConsume r) (rev es) -> wf_p w sz (rp r)) by (intros r Hr; apply Hwf; now apply in_rev).
+    assert (Hwf' : forall r, In (EConsume r) (rev es) -> wf_p w sz (rp r) /\ pos_items w (rp r)) by (intros r Hr; apply Hwf; now apply in_rev).
     clear Hwf. induction (rev es) as [|e l IH]; cbn [fold_right].
-    - split; [split; [reflexivity|split; [exact I|constructor]]|]. unfold Cons, cur_items, fly_items, fly_items_l, items_reqs; cbn. constructor.
-    - assert (Hl : forall r, In (EConsume r) l -> wf_p w sz (rp r)) by (intros r Hr; apply Hwf'; now right).
-      specialize (IH Hl). destruct (fold_right (fun y x => cstep x y) (b_init, O, [], []) l) as [[[st n] rs] F].
+    - split; [split; [reflexivity|split; [exact I|constructor]]|]. unfold Cons, cur_items, fly_items, fly_items_l; cbn. constructor.
+    - assert (Hl : forall r, In (EConsume r) l -> wf_p w sz (rp r) /\ pos_items w (rp r)) by (intros r Hr; apply Hwf'; now right).
+      specialize (IH Hl). destruct (fold_right (fun y x => cstep x y) (b_init, O, [], [], []) l) as [[[[st n] rs] ok] F].
       destruct IH as [HK HC]. destruct e; cbn [cstep bstep].
-      + assert (Hr : wf_p w sz (rp r)) by (apply Hwf'; now left).
-        split; [apply K_consume; auto|apply Cons_consume; auto].
+      + destruct (Hwf' r (or_introl eq_refl)) as [Hr Hps].
+        split; [apply K_consume; auto|eapply Cons_consume; eauto].
       + split; [exact (K_flush_current w sz max min min_le_max _ _ _ HK)|apply Cons_flush_current; exact HC].
       + split; [exact (K_flush_result w sz max _ _ _ _ _ HK)|apply Cons_flush_result; exact HC].
       + split; [exact (K_flush_current w sz max min min_le_max _ _ _ HK)|apply Cons_flush_current; exact HC].
   Qed.
 
   (* for ANY sequence of requests and any interleaving of timer flushes, export results and shutdown: the items parked
-     in the current batch, in flight, and already exported are together exactly the items that entered *)
+     in the current batch, in flight, and already exported are together exactly the items of the requests whose
+     MergeSplit did not fail (it never fails for these request types: Properties.split_terminates) *)
   Lemma batcher_conserves_l es : wf_events w sz es ->
-    let '(st, n, rs, F) := crun es in Permutation (cur_items st ++ fly_items st ++ F) (items_reqs rs).
-  Proof. intros H. pose proof (Cons_run es H) as G. destruct (crun es) as [[[st n] rs] F]. exact (proj2 G). Qed.
+    let '(st, n, rs, ok, F) := crun es in Permutation (cur_items st ++ fly_items st ++ F) ok.
+  Proof. intros H. pose proof (Cons_run es H) as G. destruct (crun es) as [[[[st n] rs] ok] F]. exact (proj2 G). Qed.
 End PayloadConservation.
+
+(* ---------------------------------------------------------------------------------------- *)
+(* the attach rule of the repaired consume (6f74b829b), in items                              *)
+(* ---------------------------------------------------------------------------------------- *)
+(* consume attaches the new request's done to the first result r0 exactly when [attach] below is true (Model.consume:
+   first_holds_new); what that test means for the items: *)
+Lemma attach_rule_items_l w sz max a b r0 rest :
+  wf_p w sz (rp a) -> wf_p w sz (rp b) -> pos_items w (rp b) -> (max = 0 \/ psum w sz (rp a) <= max) -> 0 <= max ->
+  merge_split w sz max a (Some b) = Some (r0 :: rest) ->
+  let attach := (Nat.eqb (length rest) 0 || negb (icountC w r0 =? icountC w a))%bool in
+  (attach = false -> forall x, In x (ritems r0) -> In x (ritems a)) /\
+  (attach = true -> rest = [] \/ exists x, In x (ritems r0) /\ In x (ritems b)) /\
+  (forall q x, In q rest -> In x (ritems q) -> In x (ritems b)) /\
+  (forall x, In x (ritems a) -> In x (ritems r0)).
+Proof.
+  intros Ha Hb Hpos Hfit Hmax H attach.
+  destruct (merge_split_owners _ _ _ _ _ _ Ha Hb Hpos Hfit Hmax H) as [r0' [rest' [Heq [_ [Hsame [Hrest [Hdiff Hin]]]]]]].
+  inversion Heq; subst r0' rest'. unfold attach, icountC. split; [|split; [|split; [exact Hrest|exact Hin]]].
+  - intros E. apply orb_false_iff in E. destruct E as [_ E]. apply negb_false_iff in E. apply Z.eqb_eq in E. exact (Hsame E).
+  - intros E. apply orb_true_iff in E. destruct E as [E|E].
+    + left. apply Nat.eqb_eq in E. destruct rest; [reflexivity|discriminate].
+    + right. apply negb_true_iff in E. apply Z.eqb_neq in E. exact (Hdiff E).
+Qed.
